@@ -784,7 +784,8 @@ pub fn random_unstructured(r: &mut impl RngCore) -> Vec<u8> {
 }
 
 pub fn random_string(r: &mut impl RngCore) -> String {
-    let n = below(r, 120) as usize;
+    // mostly short; sometimes up to 2 KiB (C03's bounded-progress clause is stated for <= 2 KiB)
+    let n = if below(r, 12) == 0 { 400 + below(r, 1600) as usize } else { below(r, 120) as usize };
     let mut s = String::new();
     if below(r, 3) == 0 {
         s.push_str(*pick(r, &["enr:", "ENR:", "enr:enr:", "enr", "en", "e", "enr;"]));
